@@ -203,3 +203,35 @@ impl DecoderWork {
         );
     }
 }
+
+// ======================================================================
+// DecoderWork - verification builds
+
+#[cfg(feature = "verif-hooks")]
+impl DecoderWork {
+    /// Read-only view of the internal state.
+    pub fn verif_view(&self) -> crate::verif_hooks::DecoderWorkView {
+        crate::verif_hooks::DecoderWorkView {
+            original_count: self.original_count,
+            recovery_count: self.recovery_count,
+            shard_bytes: self.shard_bytes,
+            original_base_pos: self.original_base_pos,
+            recovery_base_pos: self.recovery_base_pos,
+            original_received_count: self.original_received_count,
+            recovery_received_count: self.recovery_received_count,
+            received_len: self.received.len(),
+            received_ptr: self.received.as_slice().as_ptr() as usize,
+            shards: self.shards.verif_view(),
+        }
+    }
+
+    /// Bit `pos` of the received-bitmap (false beyond its length).
+    pub fn verif_received(&self, pos: usize) -> bool {
+        self.received.contains(pos)
+    }
+
+    /// The whole working memory.
+    pub fn verif_data(&self) -> &[[u8; 64]] {
+        self.shards.verif_data()
+    }
+}
